@@ -484,7 +484,7 @@ def _pen_forms(A, cls, var):
     return {k: v for k, v in out.items() if v is not None}, pm
 
 
-def r_red(A, ctx, scope, rule="R-RED"):
+def r_red(A, ctx, scope, rule="R-RED", parts=("penalties", "datafits", "group")):
     from ..algebra import substitute_arrays
     from .formulas import DatafitModel, datafit_gradients, _scalar_at
     ctx.rule(rule, "reductions: under the substitution that makes the general component "
@@ -495,7 +495,7 @@ def r_red(A, ctx, scope, rule="R-RED"):
     pen_pairs = [("WeightedL1", "L1", dict(arrays={"weights": 1})),
                  ("L1_plus_L2", "L1", dict(syms={"l1_ratio": 1})),
                  ("WeightedMCPenalty", "MCPenalty", dict(arrays={"weights": 1}))]
-    for gen, spe, sub in pen_pairs:
+    for gen, spe, sub in (pen_pairs if "penalties" in parts else []):
         G, S = prog.find_class(gen), prog.find_class(spe)
         if G is None or S is None:
             raise AnalysisError(f"reduction anchor {gen}/{spe} missing")
@@ -537,8 +537,8 @@ def r_red(A, ctx, scope, rule="R-RED"):
     WQ, Q, QG = prog.find_class("WeightedQuadratic"), prog.find_class("Quadratic"), prog.find_class("QuadraticGroup")
     if WQ is None or Q is None or QG is None:
         raise AnalysisError("reduction anchors WeightedQuadratic/Quadratic/QuadraticGroup missing")
-    fq, dq = dforms(Q)
-    fw, dw = dforms(WQ)
+    fq, dq = dforms(Q) if "datafits" in parts else ({}, None)
+    fw, dw = dforms(WQ) if "datafits" in parts else ({}, None)
     for m in sorted(set(fq) & set(fw)):
         e = substitute_arrays(fw[m], {"sample_weights": lambda *ix: const(1)})
         n += 1
@@ -546,7 +546,7 @@ def r_red(A, ctx, scope, rule="R-RED"):
                what=f"WeightedQuadratic.{m} with unit sample weights is `{show_rf(e)[:140]}` but "
                     f"Quadratic.{m} is `{show_rf(fq[m])[:140]}`", loc=dw.method_loc(m.split("[")[0]),
                data=dict(general=show_rf(e), special=show_rf(fq[m])))
-    fg_, dg = dforms(QG)
+    fg_, dg = dforms(QG) if "datafits" in parts else ({}, None)
     for m in sorted(set(fq) & set(fg_)):
         if m in ("get_lipschitz", "get_global_lipschitz"):
             continue
@@ -555,7 +555,7 @@ def r_red(A, ctx, scope, rule="R-RED"):
                what=f"QuadraticGroup.{m} is `{show_rf(fg_[m])[:140]}` but Quadratic.{m} is "
                     f"`{show_rf(fq[m])[:140]}`", loc=dg.method_loc(m.split("[")[0]))
     # group accessors == stacked scalar accessors
-    for gname, sname in (("LogisticGroup", "Logistic"), ("QuadraticGroup", "QuadraticGroup")):
+    for gname, sname in ((("LogisticGroup", "Logistic"), ("QuadraticGroup", "QuadraticGroup")) if "group" in parts else ()):
         G = prog.find_class(gname)
         if G is None:
             raise AnalysisError(f"reduction anchor {gname} missing")
